@@ -126,8 +126,12 @@ CHECKS['C10'] = dict(
          'behind item prefixes of total width w is filled with the budget max(L - 2k - w, 1), every line is prefix + a '
          'line of the fill loop, a body over its budget is one word, the re-filled text parses to the same lists and '
          'words, reflowing again changes nothing (also where budgets clamp at 1); re-checked on the real renderer '
-         '(c10.theorem.lists). Hard breaks, inline markup, quotes inside items and the non-rebreaking of '
-         'code/HTML/table/ATX blocks are explored on the implementation over generated nested prose for L in 1..120.',
+         '(c10.theorem.lists). NOT RE-BROKEN (Props/C10_NoRebreak.lean): for EVERY token tree, limit and option set, ATX '
+         'headings, indented and fenced code, HTML blocks, tables and thematic breaks render to the same lines whatever the '
+         'limit - alone, inside quotes / lists / list items, and as pieces of an arbitrary document (only paragraphs, setext '
+         'headings and link definitions differ); re-checked on the real renderer with the hypothesis evaluated on real token '
+         'trees (c10.theorem.rigid). Hard breaks, inline markup and quotes inside items are explored on the implementation '
+         'over generated nested prose for L in 1..120.',
     note='Trusted: Lean kernel (axioms propext/Classical.choice/Quot.sound at most); correspondence harness; the '
          'generated prose avoids words that look like block markers at line start (the recorded finding named by the '
          'property).',
@@ -165,7 +169,11 @@ CHECKS['C07'] = dict(
          'lookup with normalize_label(label), yields exactly one Link / Image token with the looked-up destination and '
          'title, and no token at all - the text stays literal - when the lookup fails; the document-level corollary '
          '(definition line, blank line, paragraph with the reference renders the link exactly when the labels are equal '
-         'after normalisation) is re-checked on the real code each run (c07.resolve). The implementation is explored with '
+         'after normalisation) is re-checked on the real code each run (c07.resolve). THE DEFINITION LINE ITSELF '
+         '(Props/C07_DefLine.lean): Footnote.start / read / match_reference on a run of definition lines (with or without a '
+         'title) return exactly those definitions in order, so the document-level statements hold with no assumption about the '
+         'block phase, and "the first definition of the run wins" is proved through to the HTML (C07_defs_document, '
+         'C07_first_of_run_wins; re-checked on the real code: c07.defs). The implementation is explored with '
          'generated placements (definitions alone and in runs, before/after use, at every nesting level).',
     note='Trusted: Lean kernel (axioms propext/Classical.choice/Quot.sound at most); str.casefold as the Unicode case '
          'fold; correspondence harness. Definitions are placed at block boundaries.',
@@ -298,7 +306,10 @@ CHECKS['C14'] = dict(
          'candidate at all; end to end Document(text) is one Paragraph of raw text and soft breaks and the renderer '
          'writes "<p>" + escape(text) + "</p>" for every option set. The hypotheses are executable: each run evaluates '
          'them in Lean on thousands of generated paragraphs and checks the theorem\'s conclusion on the REAL renderer '
-         'wherever they hold; the share of the specification-derived inert domain they cover is measured (about 87-95%); '
+         'wherever they hold; the conditions have been widened file by file (Props/C14_Wide.lean: inertBody2-5, a "<" that can '
+         'complete no tag or autolink; Props/C14_Cont.lean: later lines of a paragraph only have to survive Paragraph.read - '
+         'they may begin with "[", be an ordered-list-looking line not numbered 1, be indented four or more spaces); the share '
+         'of the specification-derived inert domain they cover is measured each run; '
          'the rest of that domain is explored against an independent spec-derived predicate.',
     note='Trusted: Lean kernel (axioms propext/Classical.choice/Quot.sound at most); doc correspondence; the second '
          'driver (PropsMain.lean) evaluating the hypotheses; the spec-derived predicate of the exploration.',
@@ -320,9 +331,12 @@ CHECKS['C03'] = dict(
          'HEADINGS (Props/C03_Code.lean): fences of either character at indentation 0-3 with any info string and any '
          'content that does not close them, at top level, in quotes and in list items; setext headings at top level and '
          'in list items (C03_code_document_partial, C03_code_html_partial) - the proof of the fence case found the '
-         'closing-fence defect repaired by 99c8328. The hypothesis is executable: each run generates '
+         'closing-fence defect repaired by 99c8328. TABLES AND INDENTED CODE BLOCKS (Props/C03_Tables.lean): alignments, '
+         'short and long body rows, outer pipes per row, cells of inert text; indented code with interior blank lines; at top '
+         'level, in quotes and in list items (C03_table_document_partial, C03_table_html_partial) - this proof found the two '
+         'whitespace-only-line defects of BlockCode repaired by 0b09465 and 2952153. The hypothesis is executable: each run generates '
          'random forests, evaluates it and the concluded HTML in Lean, and checks the REAL renderer on the written text. '
-         'Everything outside the fragment (indented code, tables, HTML blocks, link definitions, all '
+         'Everything outside the fragment (HTML blocks, link definitions, all '
          'inline constructs other than text and soft breaks, lazy continuation, interruption, list marker indentation, '
          'items beginning with a blank line) is NOT proved: it is '
          'explored with the tree generator (all block and inline kinds, depth <= 4, free spellings, adjacency without '
